@@ -57,6 +57,7 @@ var noteForms = []struct{ text, name, value string }{
 	{"#tight:x", "tight", "x"},
 	{"#  kcal : 2 000 ", "kcal", "2 000"},
 	{"## double hash", "", "double hash"},
+	{"#", "", ""},
 }
 var badSyntaxForms = []string{"nosep", "a:1", "x", "\"q\"", "a-b:2"}
 var badNumberForms = []string{"a: x1", "a b", "a: 1,5", "name: 1.2.3", "a: --1", "a: 1e", "b: 0x"}
@@ -68,12 +69,13 @@ var trails = []string{"", "", " ", "\t", "  "}
 
 // concretiser holds the per-case choice of names, literals and layout
 type concretiser struct {
-	rng    *rand.Rand
-	heads  []string
-	names  []string
-	vals   []string
-	notes  []int // note id -> noteForms index
-	layout bool  // vary layout
+	rng     *rand.Rand
+	heads   []string
+	names   []string
+	vals    []string
+	notes   []int  // note id -> noteForms index
+	layout  bool   // vary layout
+	sameBad string // "" or the one malformed-number text used throughout the file
 }
 
 func newConcretiser(rng *rand.Rand, nHeads, nNames, nVals, nNotes int) *concretiser {
@@ -88,6 +90,9 @@ func newConcretiser(rng *rand.Rand, nHeads, nNames, nVals, nNotes int) *concreti
 	c.notes = make([]int, nNotes+1)
 	for i := 1; i <= nNotes; i++ {
 		c.notes[i] = rng.Intn(len(noteForms))
+	}
+	if rng.Intn(2) == 0 {
+		c.sameBad = badNumberForms[rng.Intn(len(badNumberForms))]
 	}
 	return c
 }
@@ -133,6 +138,9 @@ func (c *concretiser) lineText(l absLine) string {
 	case "badsyntax":
 		return c.pick(indents) + c.pick(badSyntaxForms)
 	case "badnumber":
+		if c.sameBad != "" {
+			return c.pick(indents) + c.sameBad // the same malformed text on every malformed line of the file
+		}
 		return c.pick(indents) + c.pick(badNumberForms)
 	}
 	panic("unknown line kind " + l.K)
